@@ -17,7 +17,9 @@ def run(replay=None):
                'broadcast or not, transaction_delete, close+reopen); case = one event with the observations of the live and of a fresh '
                'Wallet object; class = (wallet kind, event kind, number of unspent outputs (capped), balance zero or not)')
     ck.assumptions = ['network bitcoinlib_test (offline provider); utxos_update is fed explicit reports (utxos=...)',
-                      'amounts below 2^27', 'single account, single network per wallet']
+                      'amounts below 2^27', 'single network per wallet; one or two accounts (HD wallets): every funding transaction, request and own recipient '
+                      'address stays inside one account, because the library files a transaction with all its outputs under one account '
+                      '(payments between accounts of one wallet and imports of transactions of a non-default account are not driven)']
     ck.model(common.model_check('MC_WalletLedger', 'MC_WalletLedger_thorough.cfg' if thorough else 'MC_WalletLedger.cfg', expect_actions=['Next']))
     if replay:
         jobs = [tuple(replay['case']['job'][:1]) + (tuple(replay['case']['job'][1]),) + tuple(replay['case']['job'][2:])]
